@@ -202,3 +202,6 @@ func ErrClass(err error) string {
 	}
 	return "Other"
 }
+
+// Pick2 picks from a list of ints.
+func (r *Rng) Pick2(xs []int) int { return xs[r.Intn(len(xs))] }
